@@ -81,7 +81,7 @@ def main():
                      "kind_free_text": "hand-written deterministic simulator (Rust): supervisor + worker processes, seeded PRNG, SEQ / CONC / DIFF / ENV worlds, reference model, controlled scheduler, minimiser, replay"}],
         "checks": checks,
         "not_applicable": na,
-        "notes": "Known findings: /verif/known_findings.json (witnesses under /verif/replays). Repairs of genuine defects are 'fix:' commits in /repo, listed there as fixed entries. See DESIGN.md.",
+        "notes": "Known findings: /verif/known_findings.json (currently no listed finding; witnesses of repaired ones under /verif/replays/fixed). Repairs of genuine defects are 'fix:' commits in /repo, listed there as fixed entries. See DESIGN.md.",
     }
     json.dump(m, open('/verif/MANIFEST.json', 'w'), indent=1)
     print("claimed:", implemented)
